@@ -511,8 +511,13 @@ Eval(t, env) ==
                vs == [i \in 1..n |-> Eval(t.a[2 * i], env)]
            IN IF AnyBad(kvs \o vs) THEN FirstBad(kvs \o vs)
               ELSE IF \E i \in 1..n : kvs[i].t \notin {"str", "int"} THEN Unm("dict-key")
-              ELSE IF \E i, j \in 1..n : i # j /\ kvs[i] = kvs[j] THEN Unm("dict-dupkey")
-              ELSE VDict([i \in 1..n |-> DictKeyOf(kvs[i])], vs)
+              ELSE \* a key written more than once keeps its first position and takes its last value (Python)
+                   LET firsts == {i \in 1..n : \A j \in 1..(i - 1) : kvs[j] # kvs[i]}
+                       RECURSIVE Asc(_)
+                       Asc(i) == IF i > n THEN <<>> ELSE (IF i \in firsts THEN <<i>> ELSE <<>>) \o Asc(i + 1)
+                       ord == Asc(1)
+                       lastOf(i) == CHOOSE j \in 1..n : kvs[j] = kvs[i] /\ \A m \in (j + 1)..n : kvs[m] # kvs[i]
+                   IN VDict([q \in 1..Len(ord) |-> DictKeyOf(kvs[ord[q]])], [q \in 1..Len(ord) |-> vs[lastOf(ord[q])]])
       [] t.k = "sub"   -> EvalSub(t.a[1], t.a[2], env)
       [] t.k = "comp"  ->
            LET sv == Eval(t.a[2], env) IN
